@@ -47,7 +47,7 @@ func c07(tier string, args []string) int {
 	}
 	cfgs = append(cfgs, allOff)
 	maxDepth, nTest := 3, 40
-	small := smallSearchPositions(0)
+	small := smallSearchPositions(2)
 	if tier == "thorough" {
 		maxDepth, nTest = 4, 300
 		small = smallSearchPositions(1)
@@ -68,8 +68,8 @@ func c07(tier string, args []string) int {
 			terminal = append(terminal, f)
 			continue
 		}
-		if tier != "thorough" && i < len(small) && i%3 != 0 {
-			continue // quick tier: every third small position
+		if tier != "thorough" && i < len(small) && i%4 != 0 {
+			continue // quick tier: every fourth small position
 		}
 		fens = append(fens, f)
 	}
